@@ -116,7 +116,9 @@ def eval_integrand(w, mesh, e, default_side):
     return v, ev.unrestricted
 
 
-def check_form(rng, fg, form, opts, want_trace=False):
+def check_form(rng, fg, form, opts, want_trace=False, ref=None):
+    # ref: a form with the same measures whose integrands are the hand-expanded meaning of `form` (used for derivative forms, where
+    # evaluating the original would go through the very expansion under test)
     """push `form` through compute_form_data with `opts` and compare every resulting integral with the originals.
     returns Outcome(status=..., ...) ; status in ok | raised | skipped | violation"""
     from ufl.algorithms import compute_form_data
@@ -154,7 +156,7 @@ def check_form(rng, fg, form, opts, want_trace=False):
                     vp, unr_p = eval_integrand(w, fg.mesh, pre, s)
                     per_sid = []
                     for sid in sids:
-                        origs = contributions(form, itype, sid, integral.metadata(), app)
+                        origs = contributions(ref if ref is not None else form, itype, sid, integral.metadata(), app)
                         vo, unr_o = c01sem.Mag(0), []
                         for I in origs:
                             v, u = eval_integrand(w, fg.mesh, I.integrand(), s)
@@ -680,6 +682,50 @@ class C01(Prop):
         add("power-tower (f^2)^1.5/f^3", lambda fg, f, g, m: ((f ** 2) ** 1.5 * (1 / f) ** 3) * g * ufl.ds(domain=m))
         add("integer powers f^2*(1/f)^2*g", lambda fg, f, g, m: (f ** 2 * (1 / f) ** 2) * g * ufl.dx(domain=m))
         add("f*g/f", lambda fg, f, g, m: (f * g * (1 / f)) * ufl.dx(domain=m))
+        # corner cases of single passes seen through the whole pipeline (each with the options that reach the pass forced on)
+        self.force = getattr(self, "force", {})
+        from utils import LagrangeElement
+
+        def vec(fg, m, deg=1):
+            return ufl.Coefficient(ufl.FunctionSpace(m, LagrangeElement(fg.cell, deg, (fg.gdim,))))
+
+        def mat(fg, m):
+            return ufl.Coefficient(ufl.FunctionSpace(m, LagrangeElement(fg.cell, 1, (fg.gdim, fg.gdim))))
+
+        def reuse_index(fg, f, g, m):
+            # an Index object bound by an implicit sum inside as_tensor(..) and used again to index that tensor
+            B, c, d = mat(fg, m), vec(fg, m), vec(fg, m, 2)
+            i, j = ufl.indices(2)
+            A = ufl.as_tensor(B[j, i] * c[i], (j,))
+            return (A[i] * d[i]) * g * ufl.dx(domain=m) + (ufl.as_tensor(B[i, j] * d[j], (i,))[j] * c[j]) * f * ufl.ds(domain=m)
+        add("index re-used to index a component tensor that binds it", reuse_index)
+        self.force["index re-used to index a component tensor that binds it"] = dict(do_remove_component_tensors=True)
+
+        def two_variables(fg, f, g, m):
+            a, b = ufl.variable(f), ufl.variable(g)
+            u = vec(fg, m, 2)
+            F = ufl.variable(ufl.Identity(fg.gdim) + ufl.grad(u))
+            Cm = ufl.variable(F.T * F)
+            return (ufl.diff(a ** 3, a) + ufl.diff(ufl.sin(b) * a, b)) * ufl.dx(domain=m) + ufl.inner(ufl.diff(ufl.tr(F.T * F), F), ufl.diff(ufl.tr(Cm * Cm), Cm)) * ufl.dx(domain=m)
+        add("derivatives with respect to two variables of one shape", two_variables)
+
+        def two_variables_ref(fg, f, g, m, form):
+            # the same coefficients, derivatives expanded by hand: d(a^3)/da = 3a^2, d(sin(b) a)/db = cos(b) a, d tr(F^T F)/dF = 2F, d tr(C C)/dC = 2C^T
+            from ufl.algorithms.analysis import extract_coefficients
+            u = [c for c in extract_coefficients(form) if c.ufl_shape == (fg.gdim,)][0]
+            F = ufl.Identity(fg.gdim) + ufl.grad(u)
+            Cm = F.T * F
+            return (3 * f ** 2 + ufl.cos(g) * f) * ufl.dx(domain=m) + ufl.inner(2 * F, 2 * Cm.T) * ufl.dx(domain=m)
+        self.refs = getattr(self, "refs", {})
+        self.refs["derivatives with respect to two variables of one shape"] = two_variables_ref
+
+        def jk_projector(fg, f, g, m):
+            # sum_k J[a,k] K[k,b] is the identity only when gdim == tdim; on an immersed manifold it is the tangential projector
+            J, K = C.Jacobian(m), C.JacobianInverse(m)
+            v, w = vec(fg, m), vec(fg, m, 2)
+            return ufl.inner(ufl.dot(ufl.dot(J, K), v), w) * ufl.dx(domain=m) + ufl.inner(ufl.dot(ufl.dot(K, J), K * w), K * v) * f * ufl.dx(domain=m)
+        add("Jacobian times inverse Jacobian in both orders", jk_projector)
+        self.force["Jacobian times inverse Jacobian in both orders"] = dict(do_apply_geometry_lowering=True, do_cancel_jacobian_products=True, preserve_geometry_types=())
         # geometry, one quantity at a time, on every kind of integral
         for q in ["CellVolume", "Circumradius", "FacetArea", "MinCellEdgeLength", "MaxCellEdgeLength", "CellDiameter", "JacobianDeterminant", "FacetNormal", "Jacobian", "JacobianInverse",
                   "MinFacetEdgeLength", "MaxFacetEdgeLength", "CellNormal", "SpatialCoordinate"]:
@@ -701,6 +747,11 @@ class C01(Prop):
         cases = self.directed_cases()
         name, fn = cases[k % len(cases)]
         fg = FormGen(rng, k)
+        if name.startswith("Jacobian times inverse") and (k // len(cases)) % 2 == 0:
+            for _ in range(40):          # every other time on an immersed manifold (tdim < gdim)
+                if fg.tdim < fg.gdim:
+                    break
+                fg = FormGen(rng, k)
         from utils import LagrangeElement
         f = ufl.Coefficient(ufl.FunctionSpace(fg.mesh, LagrangeElement(fg.cell, 2)))
         g = ufl.Coefficient(ufl.FunctionSpace(fg.mesh, LagrangeElement(fg.cell, 1)))
@@ -708,6 +759,9 @@ class C01(Prop):
             form = fn(fg, f, g, fg.mesh)
         except Exception:  # noqa: quantity not defined on this cell kind (CellNormal off manifolds, facet edges in 2D)
             return name, fg, None
+        self.ref_form = None
+        if name in getattr(self, "refs", {}):
+            self.ref_form = self.refs[name](fg, f, g, fg.mesh, form)
         return name, fg, form
 
     def element_forms(self, rng, k):
@@ -765,14 +819,16 @@ class C01(Prop):
             if stream == "directed" or k % 2 == 0:
                 opts["do_cancel_jacobian_products"] = rng.random() < 0.7
             opts["complex_mode"] = False
-        out = check_form(rng, fg, form, opts)
+            if stream == "directed":
+                opts.update(getattr(self, "force", {}).get(name, {}))
+        out = check_form(rng, fg, form, opts, ref=(getattr(self, "ref_form", None) if stream == "directed" else None))
         out.name, out.fg, out.form, out.opts = name, fg, form, opts
         return out
 
     def oracle(self, ctx, ev):
         import collections
         n_rand = 200 if ctx.quick else 6000
-        n_dir = 50 if ctx.quick else 600
+        n_dir = 66 if ctx.quick else 660
         n_el = 50 if ctx.quick else 900
         st = collections.Counter()
         optc, passc, cellc, itc, elc, skipc, raisec, geoc = (collections.Counter() for _ in range(8))
